@@ -156,6 +156,26 @@ def run(ctx, res):
         cases.append({'cfg': {'nquads': True, 'mode': ctx.rng.choice(['NO', 'PARTIAL-AGGREGATIONS', 'MAXIMAL']), 'udfs': 'udfs.py'},
                       'sources': [{'key': 'S0', 'kind': 'csv', 'cols': ['id', 'c1', 'c2'], 'rows': rows}],
                       'doc': [{'id': EX + 'tm/T', 'src': 'S0', 'nonasserted': False, 'subj': subj, 'sjoins': [], 'classes': [], 'sgraphs': [], 'poms': poms}], 'execs': execs})
+    # directed: a function-valued term map in a rule whose object is a referencing object map with ONE join condition; child rows share join keys
+    for _ in range(ctx.scale(8, 60)):
+        keys = ['a', 'b']
+        crows = [[str(i + 1), ctx.rng.choice(keys), ctx.rng.choice(['x', 'Y', 'zed', 'a,b'])] for i in range(ctx.rng.choice([3, 4, 5]))]
+        prows = [[k, 'n' + k] for k in keys]
+        where = ctx.rng.choice(['predicate', 'graph', 'subject'])
+        execs = [{'id': EX + 'exec/J1', 'fun': ctx.rng.choice([GREL + 'toUpperCase', MK + 'string_split_explode']), 'inputs': [[GREL + 'valueParam', 'ref', 'c1']]}]
+        if execs[0]['fun'].endswith('explode'):
+            execs[0]['inputs'].append([GREL + 'param_string_sep', 'const', ','])
+        fm = tm('exec', EX + 'exec/J1', 'iri', 'iri')
+        pred = fm if where == 'predicate' else tm('const', EX + 'p/rel')
+        subj = tm('exec', EX + 'exec/J1', 'iri', 'bnode') if where == 'subject' else tm('templ', EX + 'c/{id}')
+        pom = {'preds': [pred], 'objs': [{'m': {'k': 'parent', 'v': EX + 'tm/P', 'ck': 'iri', 'tt': ''}, 'lang': None, 'dt': None, 'joins': [['k', 'pk']]}],
+               'graphs': [tm('exec', EX + 'exec/J1')] if where == 'graph' else []}
+        cases.append({'cfg': {'nquads': True, 'mode': ctx.rng.choice(['NO', 'PARTIAL-AGGREGATIONS', 'MAXIMAL']), 'udfs': 'udfs.py'},
+                      'sources': [{'key': 'S0', 'kind': 'csv', 'cols': ['id', 'k', 'c1'], 'rows': crows}, {'key': 'S1', 'kind': 'csv', 'cols': ['pk', 'name'], 'rows': prows}],
+                      'doc': [{'id': EX + 'tm/C', 'src': 'S0', 'nonasserted': False, 'subj': subj, 'sjoins': [], 'classes': [], 'sgraphs': [], 'poms': [pom]},
+                              {'id': EX + 'tm/P', 'src': 'S1', 'nonasserted': False, 'subj': tm('templ', EX + 'p/{pk}'), 'sjoins': [], 'classes': [], 'sgraphs': [],
+                               'poms': [{'preds': [tm('const', EX + 'p/name')], 'objs': [{'m': tm('ref', 'name'), 'lang': None, 'dt': None, 'joins': []}], 'graphs': []}]}],
+                      'execs': execs})
     batch = family.Batch(ctx)
     recs = batch.run(cases)
     for rec in recs:
